@@ -30,6 +30,11 @@ TRUSTED = [
     "harness/c07.py + harness/frames.py + harness/ragged.py (generator, per-column nested-list oracle, Coq printer)",
 ]
 ASSUMPTIONS = [
+    "index expressions are those the property lists and IndexSelectType declares: int, slice, list of ints, range, "
+    "1-D integer (long) index tensor, 1-D bool mask tensor.  A Python LIST of bools, a uint8 tensor and a 0-dim index "
+    "tensor are outside the quantifier (torch reads a bool list / uint8 tensor as a mask on dense tensors while the "
+    "ragged containers read it as integer indices; a 0-dim tensor drops the row axis of dense tensors): they are not "
+    "generated and not judged",
     "'the source frame is left unchanged' is observed (deep snapshot before/after every selection), not proved; "
     "storage aliasing (views) and device placement are outside the pure model",
     "scalars are opaque payloads (moved, never computed on)",
@@ -363,6 +368,35 @@ def stats(cases, obss):
         d["error_cases"] += any(not s["ok"] for s in steps)
         d["through_empty"] += any(s["ok"] and s.get("frame", {}).get("len") == 0 for s in steps[:-1])
     return d
+
+
+def sanity(cases, obss):
+    """Fail-closed distribution check (DESIGN 3.5)."""
+    d = stats(cases, obss)
+    probs = []
+    if not d["total"]:
+        return ["no case was run"]
+    if d["error_cases"] > 0.6 * d["total"]:
+        probs.append(f"{d['error_cases']} of {d['total']} chains end in an error")
+    for k in ("int", "slice", "list", "range", "tensor", "mask"):
+        if d["index_kinds"].get(k, 0) == 0:
+            probs.append(f"index kind {k} never drawn")
+    for k in ("dense", "mnt", "met", "dict"):
+        if d["kinds"].get(k, 0) == 0:
+            probs.append(f"storage kind {k} never drawn")
+    for st in F.STYPES:
+        if d["stypes"].get(st, 0) == 0:
+            probs.append(f"stype {st} never drawn")
+    for k, what in (("with_y", "no frame with a target"), ("explicit_num_rows", "no frame with explicit num_rows"),
+                    ("featureless", "no feature-less frame"), ("through_empty", "no chain passes through an empty frame"),
+                    ("overshooting_slices", "no overshooting slice")):
+        if d[k] == 0:
+            probs.append(what)
+    if d["with_y"] == d["total"]:
+        probs.append("no frame without a target")
+    if not any(int(k) >= 2 for k in d["chain_len"]):
+        probs.append("no chain of two or more selections")
+    return probs
 
 
 # ------------------------------------------------------------------ Coq side
